@@ -24,7 +24,7 @@ ASSUMPTIONS = [
 
 BLOCKS = [(0, 64511), (64512, 65535), (65536, 4199999999), (4200000000, 4294967295)]
 BOUNDARY = [0, 1, 64510, 64511, 64512, 64513, 65534, 65535, 65536, 65537, 4199999998, 4199999999, 4200000000, 4200000001, 4294967294, 4294967295]
-RELATED = [6, 65, 650, 6500, 65001, 650010, 1, 10, 100, 12, 123, 23, 64, 645, 5, 55, 555]
+RELATED = [6, 65, 650, 6500, 65001, 650010, 1, 10, 100, 12, 123, 23, 64, 645, 5, 55, 555, 65546, 131082, 65537, 655370]
 
 
 def block(n):
@@ -195,6 +195,9 @@ def _case(draw):
         k = draw(st.integers(0, 7))
         segs.append([n, n, n, n, draw(_digits) + n, n + draw(_digits), "0" + n, draw(_digits) + n + draw(_digits)][k])
         segs.append(draw(_delim) or draw(st.sampled_from([" ", ":", "."])))
+    if draw(st.integers(0, 5)) == 0:
+        # dotted text next to / instead of numbers: addresses, asdot notation, versions
+        segs.insert(draw(st.integers(0, len(segs))), draw(st.sampled_from([" 10.1.10.1 ", " 1.10 ", " 2.10", "rd 65001.100 ", " 3.65001 ", "10.174.0.1", " 1.0.1 ", "v1.10.2"])))
     if draw(st.booleans()):
         segs[-1] = draw(st.sampled_from(["", "", " ", ";"]))
     return {"nums": nums, "line": "".join(segs), "salt": draw(st.one_of(st.text(max_size=6), st.sampled_from(["", "s", "TESTSALT"]))), "via": draw(st.sampled_from(["direct", "direct", "io"]))}
